@@ -2,7 +2,7 @@
    not raise, they do not run out of fuel) after at most len/stride + c loop iterations, and the result is the list of the successive
    stride-sized pieces of the announced part of the buffer, each decoded with the library's table.  This is C11 (termination within work
    proportional to the buffer, for hostile input) and the all-input generalisation of the C04 exactness theorems. *)
-From Coq Require Import String ZArith List Bool Lia.
+From Coq Require Import String ZArith List Bool Lia DecimalString.
 From PS Require Import Base.Bytes Base.Result Model.Converter Model.Py Proofs.FacadeState Proofs.PyLemmas Proofs.PyParsers Gen.Tables Gen.PyFuncs.
 Import ListNotations.
 Set Default Timeout 120.
@@ -186,4 +186,119 @@ Proof.
     destruct Hinv as (rest & done & Hds & Htot & Hd & Hl & Hr). rewrite app_nil_r in Htot. subst done.
     step. rewrite Hl. unfold with_var. rewrite Hr. unfold res. cbn [update_at set_item dict_set String.eqb Ascii.eqb Bool.eqb].
     step. reflexivity.
+Qed.
+
+(* ---------------------------------------------------------------- REPORT LUNS, every input *)
+Definition RL := "scsi_cdb_report_luns.ReportLuns.unmarshall_datain".
+Notation PF_rl := PF_scsi_cdb_report_luns_ReportLuns_unmarshall_datain.
+Definition T_rl := T_scsi_cdb_report_luns__ReportLuns___datain_bits.
+
+Lemma rl_lookup : lookup RL py_program = Some PF_rl.
+Proof. vm_compute. reflexivity. Qed.
+Lemma rl_table : lookup "scsi_cdb_report_luns.ReportLuns._datain_bits" all_tables = Some T_rl.
+Proof. vm_compute. reflexivity. Qed.
+Lemma rl_wf : masks_nonzero T_rl = true /\ names_distinct (map fst T_rl) = true.
+Proof. vm_compute. split; reflexivity. Qed.
+
+(* the decimal text of a number is never empty, so "lun<N>" is never "lun" *)
+Lemma z_to_string_nonempty z : z_to_string z <> "".
+Proof.
+  unfold z_to_string, NilZero.string_of_int. destruct (Z.to_int z) as [d|d].
+  - unfold NilZero.string_of_uint. destruct d; discriminate.
+  - discriminate.
+Qed.
+
+Lemma str_app_nil (s : string) : (s ++ "")%string = s.
+Proof. induction s as [|c s IH]; [reflexivity|]. cbn. now rewrite IH. Qed.
+
+Lemma lun_key_neq (s : string) : s <> "" -> String.eqb ("lun" ++ s) "lun" = false.
+Proof. intros H. destruct s; [congruence|]. reflexivity. Qed.
+
+Definition rl_value (d : bytes) : pv := PInt (Z.of_N (N.land (N.shiftr (ba_to_int (slice d 0 (0 + nbytes 18446744073709551615))) 0) (N.shiftr 18446744073709551615 0))).
+Definition rl_entry (i : nat) (d : bytes) : pv := PDict [("lun" ++ z_to_string (Z.of_nat i), rl_value d)].
+
+Fixpoint rl_entries (i : nat) (ds : list bytes) : list pv :=
+  match ds with [] => [] | d :: r => rl_entry i d :: rl_entries (S i) r end.
+
+Lemma rl_entries_app i a b : rl_entries i (a ++ b)%list = (rl_entries i a ++ rl_entries (i + length a) b)%list.
+Proof.
+  revert i. induction a as [|d a IH]; intros i.
+  - change (length (@nil bytes)) with 0. now rewrite Nat.add_0_r.
+  - change ((d :: a) ++ b)%list with (d :: (a ++ b))%list. cbn [rl_entries]. rewrite IH. change (length (d :: a)) with (S (length a)).
+    replace (S i + length a) with (i + S (length a)) by lia. reflexivity.
+Qed.
+
+Definition rl_inv_all (total : list bytes) (ds : list bytes) (ρ : env) : Prop :=
+  exists rest done, ds = chunks (length rest) 8 rest /\ total = (done ++ ds)%list /\
+    lookup "_data" ρ = Some (PBytes rest) /\ lookup "_luns" ρ = Some (PList (rl_entries 0 done)) /\
+    lookup "_count" ρ = Some (PInt (Z.of_nat (length done))) /\ lookup "result" ρ = Some (PDict []).
+
+Theorem reportluns_total : forall (data : bytes) f, length data + 3 <= f ->
+  let announced := py_slice data (Some 8%Z) (Some (Z.of_N (ba_to_int (py_slice data None (Some 4%Z))) + 8)%Z) in
+  call_fun all_tables py_program f RL [PBytes data] = Ok (PDict [("luns", PList (rl_entries 0 (chunks (length announced) 8 announced)))]).
+Proof.
+  intros data f Hf announced.
+  unfold call_fun, call_with. rewrite rl_lookup. cbn [fn_params bind_params PF_rl].
+  destruct f as [|[|f]]; try lia. rewrite run_S, exec_if. cbn [eval truthy].
+  cbn [fn_body PF_rl].
+  step. step. cbn [lookup String.eqb Ascii.eqb Bool.eqb slice_eval opt_int as_int bin_eval]. fold announced.
+  step. step.
+  rewrite exec_block_cons, <- run_S.
+  assert (Hal : length announced <= length data).
+  { unfold announced, py_slice. destruct (clip (length data) 8); rewrite firstn_length, ?skipn_length; lia. }
+  pose proof (while_consumes all_tables py_program (ELen (EVar "_data")) (while_body PF_rl 4) _ (rl_inv_all (chunks (length announced) 8 announced)) 0) as W.
+  match goal with |- context [run _ _ _ (SWhile _ _) ?r0] =>
+    destruct (W) with (ds := chunks (length announced) 8 announced) (f := S f) (ρ := r0) as (ρ' & Hrun & Hinv) end.
+  - intros f0 ds ρ (rest & done & Hds & Htot & Hd & Hl & Hc & Hr). cbn [eval]. rewrite Hd. cbn [len_eval]. eexists. split; [reflexivity|]. cbn [truthy].
+    destruct rest as [|a rest]; [rewrite Hds, chunks_nil; reflexivity|].
+    change (length (a :: rest)) with (S (length rest)) in *. rewrite Hds. rewrite chunks_cons by discriminate.
+    destruct (Z.eqb_spec (Z.of_nat (S (length rest))) 0); [lia|reflexivity].
+  - intros f0 d ds ρ _ (rest & done & Hds & Htot & Hd & Hl & Hc & Hr).
+    destruct rest as [|a rest]; [rewrite chunks_nil in Hds; discriminate|].
+    change (length (a :: rest)) with (S (length rest)) in Hds. rewrite chunks_cons in Hds by discriminate. injection Hds as -> ->.
+    cbn [while_body fn_body nth PF_rl].
+    step. step. rewrite Hd. cbn [slice_eval opt_int as_int]. rewrite rl_table. change 8%Z with (Z.of_nat 8). rewrite py_slice_to.
+    rewrite decode_bits_total by apply rl_wf. unfold with_var. lk.
+    rewrite dict_update_nil by (unfold dict_of_decoded; rewrite map_map; cbn [fst]; rewrite decode_total_names by apply rl_wf; apply rl_wf).
+    (* the decoded dictionary has exactly the key "lun" *)
+    assert (Hdt : dict_of_decoded (decode_total (firstn 8 (a :: rest)) T_rl) = [("lun", rl_value (firstn 8 (a :: rest)))]) by reflexivity.
+    rewrite Hdt.
+    set (x := rl_value (firstn 8 (a :: rest))).
+    step. rewrite Hc. cbn [fmt_eval]. rewrite str_app_nil.
+    set (k := "lun" ++ z_to_string (Z.of_nat (length done))).
+    assert (Hk : String.eqb k "lun" = false) by (apply lun_key_neq, z_to_string_nonempty).
+    step. cbn [index_eval lookup String.eqb Ascii.eqb Bool.eqb]. unfold with_var. lk. cbn [update_at set_item dict_set]. rewrite Hk.
+    rewrite exec_block_cons, exec_if. cbn [eval]. lk. cbn [cmp_eval py_eq]. rewrite Hk. cbn [truthy].
+    step. unfold with_var. lk. cbn [lookup String.eqb Ascii.eqb Bool.eqb dict_remove]. rewrite exec_block_nil.
+    step. unfold with_var. lk. rewrite Hl. cbn [update_at].
+    step. rewrite Hd. cbn [slice_eval opt_int as_int]. change 8%Z with (Z.of_nat 8). rewrite py_slice_from.
+    step. rewrite Hc. cbn [bin_eval as_int].
+    rewrite exec_block_nil. eexists. split; [reflexivity|].
+    exists (skipn 8 (a :: rest)), (done ++ [firstn 8 (a :: rest)])%list. repeat split; lk.
+    + apply chunks_more_fuel; [lia| |lia]. pose proof (skipn_shorter (a :: rest) 8 ltac:(discriminate) ltac:(lia)) as H.
+      change (length (a :: rest)) with (S (length rest)) in H. lia.
+    + rewrite Htot, <- app_assoc. reflexivity.
+    + reflexivity.
+    + rewrite rl_entries_app. cbn [rl_entries]. rewrite Nat.add_0_l. reflexivity.
+    + rewrite app_length. change (length [firstn 8 (a :: rest)]) with 1. f_equal. f_equal. lia.
+    + exact Hr.
+  - pose proof (chunks_length (length announced) 8 announced). lia.
+  - exists announced, []. repeat split; lk; reflexivity.
+  - cbn [while_body while_cond fn_body nth PF_rl] in Hrun. rewrite Hrun. clear Hrun.
+    destruct Hinv as (rest & done & Hds & Htot & Hd & Hl & Hc & Hr). rewrite app_nil_r in Htot. subst done.
+    step. unfold with_var. rewrite Hr, Hl. cbn [update_at dict_update fold_left dict_set fst snd].
+    step. cbn [truthy]. reflexivity.
+Qed.
+
+(* the pieces of a concatenation of k-byte strings are those strings *)
+Lemma chunks_concat (k : nat) (ds : list bytes) : 1 <= k -> Forall (fun d => length d = k) ds ->
+  forall fuel, length (concat ds) <= fuel -> chunks fuel k (concat ds) = ds.
+Proof.
+  intros Hk H. induction H as [|d ds Hd Hall IH]; intros fuel Hf.
+  - change (concat []) with (@nil N). apply chunks_nil.
+  - change (concat (d :: ds)) with (d ++ concat ds)%list in *. rewrite app_length in Hf.
+    destruct fuel as [|fuel]; [lia|]. rewrite chunks_cons by (destruct d; [change (length (@nil N)) with 0 in Hd; lia|discriminate]).
+    rewrite firstn_app. replace (k - length d) with 0 by lia. rewrite firstn_O, app_nil_r, firstn_all2 by lia.
+    rewrite skipn_app. replace (k - length d) with 0 by lia. rewrite skipn_all2 by lia. change (skipn 0 (concat ds)) with (concat ds). change ([] ++ concat ds)%list with (concat ds).
+    f_equal. apply IH. lia.
 Qed.
